@@ -361,12 +361,10 @@ class Gen(object):
             v = self.value_for_attr(ch, a)
             out.append([a, v])
             if rng.random() < self.p["multi_value"]:
-                if v[0] == "qn" and v[1] and rng.random() < 0.3 and self.p["value_kinds"].get("uri", 0) > 0:
-                    # the same URI once as a qualified name and once as an xsd:anyURI value:
-                    # two different values that only their kind tells apart
-                    out.append([a, ["uri", v[2] + v[3]]])
-                else:
-                    out.append([a, self.value_for_attr(ch, a)])
+                # (never the same URI once as a qualified name and once as xsd:anyURI in one
+                # attribute: the library's == calls those equal, so like 1/True/1.0 they are
+                # "two values that compare equal but differ in kind", which C01 excludes)
+                out.append([a, self.value_for_attr(ch, a)])
         return out
 
     def value_for_attr(self, ch, a):
